@@ -211,41 +211,45 @@ Print Assumptions C03_backpatch_exact.
    field, the question, and every RR of every section - all 18 decoded types, the OPT pseudo-RR with
    its options and the extended RCODE bits, and opaque RRs of undecoded types - with name compression
    across the whole message, the RDLENGTH / OPT / RAW_RR back-patches and the 64k limit.
+   Names may be given in ANY valid presentation text (trailing dot, \DDD or \X escapes, also for
+   printable octets): the parsed record carries them in canonical form, [canon_rec d].
    [msg_wf] (Wire/Write_msg.v) is what "well formed" means:
      id 16 bit, flag bits among the seven the library knows, opcode and RCODE ones it knows, an
      RCODE above 15 only with an OPT RR in the additional section, at most one OPT RR;
      exactly ONE question (see findings/C03.json roundtrip-question-count), type 0..65535;
-     owner and question names hostnames in canonical presentation form, RDATA names any octets in
-     canonical form (labels 1..63 octets, 255 on the wire, text shorter than 512 characters);
+     every name is text ares_split_dns_name accepts (as a hostname for owner and question names),
+     labels 1..63 octets, text shorter than 512 characters;
      every RR has the keys of its type (the API guarantees it), values in range (u8/u16/u32, 4 / 16
      address octets), class one the library accepts, TTL 32 bit;
      <character-string>s at most 255 octets (TXT too: findings roundtrip-fields-txt-over-255),
      printable where the parser insists and a non-empty CAA tag (findings roundtrip-text-unparseable),
      non-empty "rest of RDATA" fields, at least one TXT string, option values at most 65535 octets;
      an opaque RR (RAW_RR) carries a type without a decoder (not 41, not 255).
-   Equality is RefDecode.norm_parsed (NULL = empty, STR = NAME text).
+   Equality is RefDecode.norm_parsed (NULL = empty, STR = NAME text), and even Wnorm (only: a text
+   field held as STR or NAME, an absent or an empty binary value - what the writer cannot tell
+   apart, Wire/Write_weq.v); when the names of [d] already are canonical (canon_rec d = d),
+   serialising the parsed record again yields the SAME OCTETS.
    Proof: the writer model is shown to append, per field kind, octets that do not depend on what
    precedes them (Write_enc.v: the name writer as a function of position and offset list;
-   Write_fields*.v: the RDATA writers follow the layout table), so every RR decodes - by the RFC
-   reference decoder - in the FINAL message, after its RDLENGTH slot has been back-patched
-   (Write_rr.v); sections, question and header are assembled (Write_msg.v), the message is shown to be
-   in the supported subset, and C04_complete + C04_sound transfer the result to the parser.
-   The parsed record equals the written one even up to Wnorm (only: a text field held as STR or NAME,
-   an absent or an empty binary value - what the writer cannot tell apart, Wire/Write_weq.v), hence
-   serialising it again yields the SAME OCTETS.
-   _partial: non-canonical name text (trailing dot, \DDD for printable octets) is not covered. *)
-Theorem C03_roundtrip_partial : forall d bs,
+   Write_name3.v: for any valid text "prefix.suffix" the labels are those of the prefix followed by
+   those of the registered suffix; Write_fields*.v: the RDATA writers follow the layout table), so
+   every RR decodes - by the RFC reference decoder - in the FINAL message, after its RDLENGTH slot
+   has been back-patched (Write_rr.v); sections, question and header are assembled (Write_msg.v), the
+   message is shown to be in the supported subset, and C04_complete + C04_sound transfer the result
+   to the parser. *)
+Theorem C03_roundtrip : forall d bs,
   msg_wf d -> dns_write d = Ok bs ->
   Z.of_nat (length bs) <= 65535 /\
-  exists d', dns_parse bs 0 = Ok d' /\ norm_parsed d' = norm_parsed d /\ Wnorm.wnorm_parsed d' = Wnorm.wnorm_parsed d /\
-             dns_write d' = Ok bs.
+  exists d', dns_parse bs 0 = Ok d' /\ norm_parsed d' = norm_parsed (canon_rec d) /\
+             Wnorm.wnorm_parsed d' = Wnorm.wnorm_parsed (canon_rec d) /\
+             (canon_rec d = d -> dns_write d' = Ok bs).
 Proof. exact roundtrip_fixed. Qed.
-Print Assumptions C03_roundtrip_partial.
+Print Assumptions C03_roundtrip.
 
 (* FRAMES AT ANY BUFFER POSITION, the full statement: a frame written by ares_dns_write_buf_tcp into a
    buffer that already holds arbitrary octets (earlier frames, a partially sent one) consists of
    the two octets of the message length followed by EXACTLY the message ares_dns_write() produces
-   for the record - and (C03_roundtrip_partial) for a well-formed record that message parses back
+   for the record - and (C03_roundtrip) for a well-formed record that message parses back
    to the record.  Hypotheses: the buffer is well formed with no pending back-patch (holds between
    frames) and its length fits a size_t. *)
 Theorem C03_frame_any_position : forall d b b',
